@@ -34,8 +34,8 @@ type Gate struct {
 	Held int32
 }
 
-func NewGate() *Gate          { return &Gate{ch: make(chan struct{})} }
-func (g *Gate) Release()      { g.once.Do(func() { close(g.ch) }) }
+func NewGate() *Gate           { return &Gate{ch: make(chan struct{})} }
+func (g *Gate) Release()       { g.once.Do(func() { close(g.ch) }) }
 func (g *Gate) HeldCount() int { return int(atomic.LoadInt32(&g.Held)) }
 
 // Rule is a dynamic fault rule. Match is evaluated under the net mutex on the
@@ -70,7 +70,7 @@ type Net struct {
 	codec raft.Transport
 
 	// measured
-	MaxRTT   int64 // nanoseconds, over delivered exchanges
+	MaxRTT    int64 // nanoseconds, over delivered exchanges
 	Exchanges int64
 }
 
